@@ -18,7 +18,10 @@ import (
 	"sort"
 	"strconv"
 	"strings"
+	"sync"
+	"sync/atomic"
 	"testing"
+	"time"
 )
 
 type Env struct {
@@ -40,6 +43,16 @@ type Env struct {
 	distinct   map[uint64]struct{}
 	Evals      int
 	unattributed int
+	mu           sync.Mutex // protects the protocol writers (Emit vs the background flusher / the watchdog)
+	stopFlush    chan struct{}
+	stopping     atomic.Bool // set by the watchdog: engine goroutines park at their next Env call
+}
+
+// park blocks an engine goroutine for good once the watchdog has taken over (it is writing the results and exits).
+func (e *Env) park() {
+	if e.stopping.Load() {
+		select {}
+	}
 }
 
 func NewEnv(t *testing.T, engine string) *Env {
@@ -75,7 +88,50 @@ func NewEnv(t *testing.T, engine string) *Env {
 	e.distinct = map[uint64]struct{}{}
 	fmt.Fprintf(e.ops, "engine %s\n", engine)
 	fmt.Fprintf(e.impl, "engine %s\n", engine)
+	// flush the protocol files every few seconds, so that after a crash or a hang of the real code the case that
+	// was running can be read from the tail of ops.txt (`check` attaches it to the replay file)
+	e.stopFlush = make(chan struct{})
+	go func() {
+		tk := time.NewTicker(3 * time.Second)
+		defer tk.Stop()
+		for {
+			select {
+			case <-e.stopFlush:
+				return
+			case <-tk.C:
+				e.mu.Lock()
+				e.ops.Flush()
+				e.impl.Flush()
+				e.mu.Unlock()
+			}
+		}
+	}()
 	return e
+}
+
+// Watchdog guards one case in REAL time (arm it outside any synctest bubble): if the case does not finish within d the
+// real code is spinning or blocked; the violation `describe()` returns is recorded, the protocol files and stats are
+// written, and the engine process ends normally so that `check` reports the violation with the case as its replay.
+func (e *Env) Watchdog(d time.Duration, describe func() map[string]any) (stop func()) {
+	done := make(chan struct{})
+	go func() {
+		select {
+		case <-done:
+		case <-time.After(d):
+			v := describe()
+			e.stopping.Store(true)
+			time.Sleep(300 * time.Millisecond) // engine goroutines still running park at their next Env call
+			e.mu.Lock()
+			e.Violations = append(e.Violations, v)
+			e.Dist["monitor_violation"]++
+			e.Dist["watchdog_fired"]++
+			e.mu.Unlock()
+			_ = e.finish()
+			fmt.Fprintln(os.Stderr, "watchdog: a case did not finish in real time; violation recorded, engine stopped")
+			os.Exit(0)
+		}
+	}()
+	return func() { close(done) }
 }
 
 // Emit writes one op line for the model driver and the implementation's observation for it.
@@ -83,14 +139,17 @@ func (e *Env) Emit(op string, obs string) {
 	if strings.ContainsAny(op, "\n") || strings.ContainsAny(obs, "\n") {
 		panic("newline in protocol line")
 	}
+	e.park()
+	e.mu.Lock()
 	e.ops.WriteString(op)
 	e.ops.WriteByte('\n')
 	e.impl.WriteString(obs)
 	e.impl.WriteByte('\n')
 	e.Lines++
+	e.mu.Unlock()
 }
 
-func (e *Env) Count(k string) { e.Dist[k]++ }
+func (e *Env) Count(k string) { e.park(); e.Dist[k]++ }
 
 func (e *Env) Sample(v any) {
 	if len(e.Samples) < 5 {
@@ -107,7 +166,10 @@ func (e *Env) Distinct(h uint64) bool {
 	return true
 }
 
+const maxUnattributed = 8
+
 func (e *Env) Violation(v map[string]any) {
+	e.park()
 	e.Dist["monitor_violation"]++
 	if f, ok := v["finding"].(string); ok && f != "" {
 		// violations attributed to a listed finding: a few witnesses each are enough
@@ -121,9 +183,34 @@ func (e *Env) Violation(v map[string]any) {
 	if e.unattributed <= 50 { // anything not attributed is always kept
 		e.Violations = append(e.Violations, v)
 	}
+	if e.unattributed == maxUnattributed && os.Getenv("VERIF_KEEP_GOING") == "" {
+		// the verdict is settled and the witnesses are recorded; on a broken tree every further case can cost seconds
+		// (hangs, retries until a bound): stop here, write the results, end the engine normally
+		e.Dist["stopped_after_violations"]++
+		e.stopping.Store(true)
+		if err := e.finish(); err != nil {
+			fmt.Fprintln(os.Stderr, err)
+			os.Exit(2)
+		}
+		fmt.Fprintf(os.Stderr, "%d violations not attributed to a recorded finding: engine stopped early\n", maxUnattributed)
+		os.Exit(0)
+	}
 }
 
 func (e *Env) Close(t *testing.T) {
+	if err := e.finish(); err != nil {
+		t.Fatal(err)
+	}
+}
+
+func (e *Env) finish() error {
+	select {
+	case <-e.stopFlush:
+	default:
+		close(e.stopFlush)
+	}
+	e.mu.Lock()
+	defer e.mu.Unlock()
 	e.ops.Flush()
 	e.impl.Flush()
 	e.opsF.Close()
@@ -137,9 +224,7 @@ func (e *Env) Close(t *testing.T) {
 	e.Stats["seed"] = e.Seed
 	e.Stats["tier"] = e.Tier
 	b, _ := json.MarshalIndent(e.Stats, "", " ")
-	if err := os.WriteFile(filepath.Join(e.Out, "stats.json"), b, 0o644); err != nil {
-		t.Fatal(err)
-	}
+	return os.WriteFile(filepath.Join(e.Out, "stats.json"), b, 0o644)
 }
 
 func fnv(s string) uint64 {
